@@ -12,8 +12,8 @@ AXES = ["ancestor", "ancestor-or-self", "attribute", "child", "descendant", "des
 # ---- documents -------------------------------------------------------------------------------------
 
 class DocGen:
-    def __init__(self, rng, ns=True, dtd=True, max_depth=3):
-        self.r, self.ns, self.dtd, self.max_depth = rng, ns, dtd, max_depth
+    def __init__(self, rng, ns=True, dtd=True, max_depth=3, defaults=False):
+        self.r, self.ns, self.dtd, self.max_depth, self.defaults = rng, ns, dtd, max_depth, defaults
 
     def element(self, depth, scope):
         """scope: dict prefix -> uri of in-scope declarations ('' = default)"""
@@ -74,7 +74,7 @@ class DocGen:
         dtd = None
         if self.dtd_on:
             dtd = "<!ENTITY e1 'E  1'>"
-            if r.random() < 0.5:
+            if self.defaults:
                 dtd += "<!ATTLIST %s dflt CDATA 'dv' n NMTOKENS ' 1  2 '>" % root[1]
         return {"root": root, "heads": heads, "tails": tails, "dtd": dtd}
 
